@@ -141,6 +141,7 @@ func (x *Exec) mPutUint(st *State, b *Val, v *Val, n int, pos token.Pos) *Val {
 		hi := (n-i)*8 - 1
 		arr = sto(arr, x.sc.iAdd(b.E[1].S, x.sc.iConst(int64(i))), fmt.Sprintf("((_ extract %d %d) %s)", hi, hi-7, v.S))
 	}
+	x.freshCheck(st, key, b.E[0].S, pos)
 	x.setHeap(st, key, ci, sto(E, b.E[0].S, arr))
 	return nil
 }
